@@ -9,7 +9,7 @@ dependency closures; empty-list refusal; undo+redo round trip.
 from __future__ import annotations
 
 from .. import gen, kernel
-from ..model import HistoryModel, ModelError, flat_ops
+from ..model import HistoryModel, ModelError, flat_ops, is_ignored_path
 from ..world import World, exec_history_step, gen_history_step
 from .base import Engine, Outcome
 
@@ -28,6 +28,7 @@ def gen_swarm(rng):
         "steps": rng.choice([4, 8, 12, 20, 30]),
         "program": rng.random() < 0.4,
         "soa": rng.random() < 0.7,
+        "ignored_p": rng.choice([0.0, 0.0, 0.1, 0.25]),
         "weights": {
             "do": rng.choice([3, 6, 10]),
             "refactor": rng.choice([1, 3, 6]),
@@ -102,9 +103,12 @@ def check_invariant(out, world, model, i, st, sig_extra=None):
     except Exception as e:  # a surviving change cannot be replayed without an undone one
         out.violate("replay_impossible", sig, {"step": i, "st": _brief(st), "err": repr(e)}, where=i)
         return False, snap
-    if snap != want:
+    # ignored resources ('*~', '*.pyc') are outside the history's protection:
+    # e.g. undoing the creation of a folder removes unrecorded ignored files in it
+    vis = lambda d: {k: v for k, v in d.items() if not is_ignored_path(k)}  # noqa: E731
+    if vis(snap) != vis(want):
         ok = False
-        out.violate("tree_mismatch", sig, {"step": i, "st": _brief(st), "tree_diff": kernel.diff_trees(want, snap)}, where=i)
+        out.violate("tree_mismatch", sig, {"step": i, "st": _brief(st), "tree_diff": kernel.diff_trees(vis(want), vis(snap))}, where=i)
     return ok, snap
 
 
